@@ -431,16 +431,22 @@ func Discharge(file string, timeoutS int) (SolverResult, []SolverResult) {
 	if best != nil {
 		return *best, all
 	}
-	// prefer unknown over timeout/error in the report
-	final := SolverResult{Status: "timeout", Solver: "all"}
+	// in the report: unknown before timeout before error (a solver that rejects the query text says nothing
+	// about the obligation when another one ran out of time on it)
+	final := SolverResult{Status: "error", Solver: "all"}
 	for _, r := range all {
-		if r.Status == "unknown" {
-			final.Status = "unknown"
+		if r.Status == "error" {
+			final = r
 		}
 	}
 	for _, r := range all {
-		if r.Status == "error" && final.Status != "unknown" {
-			final = r
+		if r.Status == "timeout" {
+			final = SolverResult{Status: "timeout", Solver: "all"}
+		}
+	}
+	for _, r := range all {
+		if r.Status == "unknown" {
+			final = SolverResult{Status: "unknown", Solver: "all"}
 		}
 	}
 	return final, all
